@@ -230,6 +230,8 @@ type c20Wire struct {
 	Real   string
 	Starts []int
 	Types  []string
+	// world (c20world.go): GetLineText of every token before / after other lexers were created
+	Quotes0, Quotes []string
 }
 
 type c20Worker struct {
@@ -299,7 +301,7 @@ func c20StartWorker() *c20Worker {
 // c20Timeout: how long one request may take.  Timing is never a verdict on a result that
 // arrives; a request that gets NO answer within the limit is reported as not returning.
 func c20Timeout(mode string) time.Duration {
-	if mode == "lex" || mode == "starts" || mode == "c01lex" {
+	if mode == "lex" || mode == "starts" || mode == "c01lex" || mode == "world" {
 		return 10 * time.Second // the lexer is linear in the text
 	}
 	return 20 * time.Second
@@ -454,6 +456,8 @@ func init() {
 					}()
 				case "c01real":
 					w.Real = c01parseReal(src)
+				case "world":
+					w = c20WorldLocal(src)
 				}
 			}
 			b, _ := json.Marshal(w)
@@ -1682,7 +1686,9 @@ func c20_runC20(e *Env) {
 	e.R.Rule = "unit = one source text derived from a generated program (C01's generator plus map/set/pipe/attribute statements): " +
 		"a layout variant (one insertion at every token gap in turn, CRLF, and mixes of insertions at many gaps) or a single-token " +
 		"deletion/insertion/substitution; plus random lexeme sequences for the lexer model; distinct by the text; non-trivial when the " +
-		"program has >= 3 statement forms or block depth >= 3 and the text differs from the original (lexeme soup: contains layout)"
+		"program has >= 3 statement forms or block depth >= 3 and the text differs from the original (lexeme soup: contains layout); " +
+		"plus (c20world.go) texts whose last token is a template string inside a bracket never closed, and worlds = a text, 1..3 other texts lexed after it, " +
+		"GetLineText of every token of the first (non-trivial: the text has several lines)"
 	nProg, nMixProg, nMut, nSoup := 60, 240, 40, 3000
 	if !e.Quick {
 		nProg, nMixProg, nMut, nSoup = 750, 8000, 60, 100000
@@ -1732,4 +1738,7 @@ func c20_runC20(e *Env) {
 	// line comments at line ends of texts with multi-byte runes, with positions (c20gap.go; its own
 	// fork, taken last)
 	c20GapStream(e, e.Rng.Fork())
+	// several lexers in one process: quoted lines after other lexers were created, and errors whose
+	// last token is a template string (c20world.go; its own fork, taken last)
+	c20WorldStream(e, e.Rng.Fork())
 }
